@@ -345,13 +345,19 @@ func ruleResetPrunes(c *Ctx, only ...string) {
 		}
 		prunes := false
 		var pred *ssa.Function
-		for _, b := range fn.Blocks {
-			for _, in := range b.Instrs {
-				if ci, ok := in.(ssa.CallInstruction); ok {
-					if sc := ci.Common().StaticCallee(); sc != nil && sc.Name() == "MapDelete" && len(ci.Common().Args) == 2 {
-						prunes = true
-						if mc, ok := stripConv(ci.Common().Args[1]).(*ssa.MakeClosure); ok {
-							pred = mc.Fn.(*ssa.Function)
+		// in the reset itself or in a helper of its package it hands the work to
+		for g := range staticScope(fn, r.pkg, 2) {
+			if g.Parent() != nil {
+				continue
+			}
+			for _, b := range g.Blocks {
+				for _, in := range b.Instrs {
+					if ci, ok := in.(ssa.CallInstruction); ok {
+						if sc := ci.Common().StaticCallee(); sc != nil && sc.Name() == "MapDelete" && len(ci.Common().Args) == 2 {
+							prunes = true
+							if mc, ok := stripConv(ci.Common().Args[1]).(*ssa.MakeClosure); ok {
+								pred = mc.Fn.(*ssa.Function)
+							}
 						}
 					}
 				}
